@@ -1,9 +1,12 @@
 //! fxv — conformance harness binding the TLA+ specifications in /verif/spec to feoxdb.
 //! Every subcommand either executes specification-generated behaviours on the real code
 //! or records executions of the real code as ndjson traces for TLC to validate.
+mod absdev;
 mod cachedrv;
+mod crashdrv;
 mod fsm;
 mod layout;
+mod obs;
 mod seqdrv;
 mod util;
 
@@ -18,6 +21,8 @@ fn main() {
         "freespace" => fsm::main(rest),
         "seq" => seqdrv::main(rest),
         "cache" => cachedrv::main(rest),
+        "crash" => crashdrv::main(rest),
+        "recover" => crashdrv::recover_main(rest),
         "clocksat" => seqdrv::clocksat(rest),
         "layout-selftest" => layout::selftest(rest.first().map(|s| s.as_str()).unwrap_or("/dev/shm/fxv-layout")),
         "version" => {
